@@ -160,6 +160,10 @@ def run_case(case, stats):
     universe, leaves, prog = case
     env = Env(leaves)
     try:
+        if int(codec.digest(case)[2:4], 16) % 4 == 0:
+            from vf.core.sqlh import failed_compilations
+
+            failed_compilations(env, stats)
         rels = {}
         try:
             build_all(prog, env, rels)
